@@ -31,6 +31,9 @@ LEVEL_NOTE = ("PARTIAL BY DESIGN. Proved: for the matrix fields a writer was see
               "receivers) each writer's effect on its argument is the identity for ALL matrices, so any later export in any history "
               "sees the same matrix; the SYM Mux blocks do not depend on the order in which the set of multiplexer values is walked. "
               "The model is of the code WITH fixes/C14_{arxml,fibex,kcd}_copy.patch and C14_sym_sorted.patch; the tree before them is "
+              "Histories that interleave exports with arbitrary in-place edits are covered by export_after_edits_equals_fresh - in the model the writers "
+              "have no state besides the matrix; that the real writers keep none across calls (module-level caches) is RUN by the export/edit/export "
+              "probe, not proved. The unfixed tree is "
               "kept in the same file (copies=false / sym_emit_in_order) and the four findings are theorems `_refuted` with `_partial` "
               "envelopes. NOT proved, only run: that the other fields stay untouched - attribute DEFINITIONS (definition, type, default, min, max, "
               "values), attributes, value tables and the ORDER of every list and dict are covered by the deep snapshot before/after only, the model's "
@@ -192,6 +195,14 @@ def eval_case(arg):
 
 
 def eval_case_(arg):
+    import time
+    t_case = time.time()
+    r = eval_case__(arg)
+    r["seconds"] = round(time.time() - t_case, 2)
+    return r
+
+
+def eval_case__(arg):
     base_seed, idx = arg
     C, F, tmp = _G["C"], _G["F"], _G["tmp"]
     db, info = K.build_case(base_seed, idx, C)
@@ -262,8 +273,14 @@ def eval_case_(arg):
     except Exception as e:
         cnt["matrix-cannot-be-deep-copied (%s)" % type(e).__name__] += 1
     # ---- (b) ordered pairs on the same object ----
+    # quick tier, matrices with many frames (the shipped samples): each first writer with itself and a seeded sample of second writers
+    import random
+    prng = random.Random(base_seed * 17 + idx)
+    big = len(db.frames) > 12 and not _G.get("thorough")
+    if big:
+        cnt["large-matrix: pairs sampled (each first writer x itself + 3 others)"] += 1
     for a in alone:
-        for b in alone:
+        for b in ([a] + prng.sample([w_ for w_ in alone if w_ != a], min(3, len(alone) - 1)) if big else alone):
             d = fresh()
             ra = K.try_export(F, d, a, tmp)
             rb = K.try_export(F, d, b, tmp)
@@ -299,6 +316,51 @@ def eval_case_(arg):
                                           "fresh copy's" % hist, input=dict(summary, history=hist, first_export_that_changed_the_object=culprit),
                                           expected="state and bytes as for a fresh copy",
                                           observed=[dict(path=p_, before=a_, after=b_) for p_, a_, b_ in matgen.diff(state0, K.state(d, base_seed, idx))[:4]]))
+    # ---- export, then EDIT THE SAME OBJECT in place through the public API, then export again: every later export must be the bytes
+    #      an equal matrix, edited the same way but never exported before, produces (nothing an export computed may survive the edit) ----
+    erng = random.Random(base_seed * 131 + idx)
+    script = K.make_edit_script(db, erng, erng.randrange(3, 8))
+    try:
+        e0 = fresh()
+        kinds = K.apply_edits(e0, script, C)
+    except Exception as e:      # the edit itself is not accepted by the API on this matrix: nothing to compare
+        kinds = []
+        cnt["edit-script-not-applicable (%s)" % type(e).__name__] += 1
+    if kinds:
+        ref_state = K.state(e0, base_seed, idx)
+        ref = {}
+
+        def reference(b):
+            if b not in ref:
+                x = fresh()
+                K.apply_edits(x, script, C)
+                ref[b] = K.try_export(F, x, b, tmp)
+            return ref[b]
+        cnt["edit-histories (export, edit in place, export)"] += len(alone)
+        for k_ in kinds:
+            cnt["edit-" + k_] += 1
+        for a in alone:
+            d = fresh()
+            K.try_export(F, d, a, tmp)
+            K.apply_edits(d, script, C)
+            einput = dict(summary, first_export=a, edits=script)
+            st = K.state(d, base_seed, idx)
+            if st != ref_state:
+                res["violations"].append(dict(key="%s-then-edit-state-differs" % a, what="after a %s export and in-place edits the matrix differs from "
+                                              "an equal matrix that got the same edits without the export" % a, input=einput,
+                                              expected="same state", observed=[dict(path=p_, fresh=a_, exported=b_) for p_, a_, b_ in matgen.diff(ref_state, st)[:4]]))
+            # second writers: the first one again and a seeded sample of the others (thorough tier: all of them)
+            seconds = K.WRITER_KEYS if _G.get("thorough") else [a] + erng.sample([w_ for w_ in K.WRITER_KEYS if w_ != a], 3)
+            for b in seconds:
+                if reference(b)[0] != "ok":
+                    continue
+                rb = K.try_export(F, d, b, tmp)
+                res["pairs"] += 1
+                if rb != ref[b]:
+                    obs = rb[1] if rb[0] != "ok" else first_diff(ref[b][1], rb[1])
+                    res["violations"].append(dict(key="%s-export-survives-edit" % a, what="export %s, edit the object in place, export %s: the second "
+                                                  "export is not the bytes of an equally edited matrix that was never exported" % (a, b),
+                                                  input=dict(einput, second_export=b), expected="bytes of the fresh edited matrix", observed=obs))
     if K.state(db, base_seed, idx) != state0:
         res["violations"].append(dict(key="export-of-a-copy-changes-the-original", what="a matrix that was never handed to a writer changed while "
                                       "copies of it were exported", input=summary,
@@ -399,7 +461,7 @@ def run(chk):
         per_key[key] += 1
         if key in known_keys or per_key[key] <= 3:
             chk.violation(key, what, input, expected, observed)
-    ncases = 2600 if thorough else 180
+    ncases = 2000 if thorough else 160
     nreread = 60 if thorough else 12         # generated matrices written and read back through each of the 7 read+write formats
     hashseeds = [0, 1, 2, 3, 5, 7, 11, 4242] if thorough else [0, 1, 7]
     chk.rule = ("%d seeded matrices (profiles plain / rich / duplicate frame names / unpropagated receivers / both / many mux groups / all, "
@@ -408,7 +470,10 @@ def run(chk):
                 "groups - is randomly permuted; every second matrix carries attribute definitions of kinds DBC does not know - BOOL, STR, empty, "
                 "lower-case, oddly quoted ENUMs - in all four categories) + %d hand-made corpus matrices + the shipped sample files under tests/files "
                 "as read by their readers + generated matrices written and read back through dbc/dbf/sym/kcd/json/arxml/xls; per matrix: 13 "
-                "writers alone, all ordered pairs of the writers that accept it, %d PYTHONHASHSEED values in separate processes. One evaluation "
+                "writers alone, one random export history, one export / in-place edit script (3-7 of 25 kinds of edits through the public API: names, ids, "
+                "cycle times, attributes, define defaults, signals and frames added or deleted ...) / export history per first writer compared with an "
+                "equally edited never-exported matrix, "
+                "all ordered pairs of the writers that accept it, %d PYTHONHASHSEED values in separate processes. One evaluation "
                 "= one (matrix, first writer, second writer) triple or one (matrix, writer, hash seed) export; non-trivial = the matrix has "
                 "duplicate frame or signal names, unpropagated receivers, a multiplexed frame, or comes from a reader" % (ncases, K.N_CORPUS, len(hashseeds)))
     ok = chk.build_and_audit()
@@ -434,6 +499,7 @@ def run(chk):
             unfixed.add(w)
     _G["unfixed_writers"] = unfixed
     chk.extra["model_compared"] = {w: ("unfixed code (known finding recorded)" if w in unfixed else "code with the C14 fix") for w in ("arxml", "fibex", "kcd", "sym")}
+    _G["thorough"] = thorough
     _G["tmp_parent"] = tempfile.mkdtemp(prefix="c14_", dir="/tmp")       # xls goes through real files; removed below
     ctx = multiprocessing.get_context("fork")
     nworkers = max(2, core.NPROC - 2)
@@ -452,6 +518,7 @@ def run(chk):
         shutil.rmtree(_G["tmp_parent"], ignore_errors=True)
     ties = []
     infos = {}
+    slow = []
     for r in results:
         infos[r["idx"]] = r["info"]
         if r.get("skipped"):
@@ -463,6 +530,7 @@ def run(chk):
             continue
         for k, v in r["counts"].items():
             chk.count(k, v)
+        slow.append((r.get("seconds", 0), r["idx"], r["info"].get("file") or r["info"].get("profile")))
         chk.evaluations += r["pairs"]
         if r["nontrivial"]:
             for j in range(r["pairs"]):
@@ -477,6 +545,8 @@ def run(chk):
                             file=r["info"].get("file"), via=r["info"].get("via"), odd_defines=r["info"].get("odd_defines"),
                             rejected=r["rejected"]))
 
+    chk.extra["slowest_cases_s"] = sorted(slow, reverse=True)[:6]
+    chk.extra["case_seconds_total"] = round(sum(x[0] for x in slow), 1)
     # (c) collect
     per = collections.defaultdict(dict)      # (idx, writer) -> {hashseed: hash}
     states = collections.defaultdict(dict)
